@@ -161,6 +161,18 @@ def crash_writer(rng, w, workdir, power=True):
     return desc
 
 
+# focus -> (features wanted, build_world keywords, fault-kind weight multipliers)
+FOCI = {
+    "orphan_file": (("has_journal", "orphan_file"), {}, {"orphan_file": 10}),
+    "extent_tree": (("extent",), {"deep_extents": True, "min_kib": 24576}, {"extent_block": 8, "extent_root": 2}),
+    "casefold": ((), {"casefold_p": 1.0}, {"dup_name": 5, "dirent": 2, "dx": 2}),
+    "lost+found": ((), {}, {"lpf": 12}),
+    "block_map": ((), {"avoid": ("extent", "64bit", "bigalloc")}, {"indirect": 5, "pointer": 2}),
+    "xattr": (("ext_attr",), {"special_xattrs": True}, {"xattr_block": 4, "xattr_inode": 4}),
+    "bitmaps": ((), {}, {"bitmap_padding": 4, "bitmap_csum": 5, "bbitmap": 2, "ibitmap": 2, "gd": 2}),
+}
+
+
 def make_state(rng, workdir, kind, nfaults=None, world_kw=None, fault_classes=None, faults=None, fault_gen=None,
                reseal_p=0.4):
     """Build a world and drive it into the requested state.  Returns dict with img, cfg, kind, details,
@@ -171,11 +183,32 @@ def make_state(rng, workdir, kind, nfaults=None, world_kw=None, fault_classes=No
         want.add("has_journal")
     if kind == "mmp":
         want.add("mmp")
+    if kind == "fastcommit":
+        want.update(("has_journal", "fast_commit", "extent"))
+        kw.setdefault("avoid", ("mmp", "bigalloc"))
+        kw.setdefault("scale", 0.6)
+        kw.setdefault("min_kib", 24576)
+    kw.setdefault("casefold_p", 0.1)
+    if "deep_extents" not in kw:
+        kw["deep_extents"] = rng.chance(0.15)       # a file whose extent tree has interior nodes
+    # swarm: a third of the fault states concentrate on one area -- the world is given what that area needs and the fault
+    # kinds that touch it get more weight
+    boost = None
+    focus = None
+    if kind in ("faults", "journal+faults") and faults is None and fault_classes is None and rng.chance(0.35):
+        focus = rng.choice(sorted(FOCI))
+        fw, fk, boost = FOCI[focus]
+        want.update(fw)
+        kw.update(fk)
+        if "avoid" in fk and "avoid" in (world_kw or {}):
+            kw["avoid"] = tuple(set(fk["avoid"]) | set(world_kw["avoid"]))
     w = build_world(rng, workdir, want=sorted(want), **kw)
     if w["rejected"]:
         return None
     st = {"img": w["img"], "cfg": w["cfg"], "kind": kind, "details": {}, "faults": [], "world": w}
-    if rng.chance(0.5):
+    if focus:
+        st["details"]["focus"] = focus
+    if rng.chance(0.6):
         # inode generations as the kernel hands them out (debugfs and mke2fs leave 0 in every inode): the checksums of an
         # inode's extent and directory blocks are keyed to its generation
         try:
@@ -192,6 +225,9 @@ def make_state(rng, workdir, kind, nfaults=None, world_kw=None, fault_classes=No
         st["details"]["orphan"] = add_orphan(rng, w, workdir)
     if kind == "mmp":
         st["details"]["mmp"] = add_mmp_in_use(rng, w, workdir)
+    if kind == "fastcommit":
+        import fcworld
+        st["details"]["fastcommit"] = fcworld.add_fast_commit(rng, w["img"], damage=True)
     if kind == "crashed_writer":
         st["details"]["crash"] = crash_writer(rng, w, workdir)
     if kind in ("faults", "journal+faults"):
@@ -202,12 +238,14 @@ def make_state(rng, workdir, kind, nfaults=None, world_kw=None, fault_classes=No
         data = open(w["img"], "rb").read()
         n = nfaults if nfaults is not None else rng.weighted([(1, 6), (2, 3), (3, 1), (4, 1)])
         gen = rng.weighted([("struct", 6), ("mini", 4)]) if fault_gen is None else fault_gen
+        if focus:
+            gen = "struct"
         if gen == "struct":
             # addressed through the independent reader: extent headers/entries, dirents, htree nodes, xattr
             # entries ..., with or without the covering checksum re-sealed
             try:
                 import reffaults
-                st["faults"], _desc = reffaults.gen_struct_faults(rng, data, n, reseal_p=reseal_p, kinds=fault_classes)
+                st["faults"], _desc = reffaults.gen_struct_faults(rng, data, n, reseal_p=reseal_p, kinds=fault_classes, boost=boost)
             except Exception as ex:
                 st["details"]["struct_faults_error"] = repr(ex)
                 st["faults"] = []
